@@ -164,5 +164,43 @@ func init() {
 			}
 			return cases
 		}}
+	props["C18"] = &propDef{level: "exploration", quickRuns: 100, thorRuns: 3000,
+		assumptions: append([]string{"the temporal behaviour (pause at the first tick below the threshold, resume at the first tick at or above it) is what the simulation decides, with the real watcher loop on the fake clock and a seeded free-space history behind the statfs seam; threshold arithmetic is sampled by a boundary-biased generator over what statfs can report (blocks x block size), no exhaustiveness claimed", "start-up refusal is checked through watchers.CheckDiskUsage, the call startPipeline makes before anything else"}, e2eAssumptions...),
+		components:  map[string]string{"internal/pkg/controler/watchers (CheckDiskUsage, WatchDiskSpace loop)": "real", "statfs(2) result": "stub behind the verifhook.Statfs seam", "pipeline cases": "as for C01, plus the pause manager and the real stage workers"},
+		rule:        "component cases: one bubble = 40-80 (total, min-space) settings x ~8 free-space values biased to the exact threshold +-2 blocks, 0, total and the 256 GiB boundary, decision compared with exact rational arithmetic, plus monotonicity on every pair; pipeline cases: crawl scenarios with a free-space history that crosses the threshold, every tick verdict and every pause/resume of the watchdog judged; distinct as for C09",
+		planFn: func(p *propDef, tier string, seed uint64, n int) []*Case {
+			cases := compCases("C18", "disk", max(2, n/10), 60, seed, nil)
+			for i := 0; i < n; i++ {
+				s := mix(seed, uint64(i))
+				t := scen.NewTape(s ^ 0xc18)
+				sc := scen.GenCrawl(t, scen.CrawlOpts{Prop: "C18", MinSeeds: 2, MaxSeeds: 6, Small: true, NoBadSeeds: true, Faults: true})
+				scen.WithDiskHistory(t, sc)
+				cases = append(cases, &Case{Idx: len(cases), Seed: s, Scenario: sc, Label: "crawl-disk"})
+			}
+			return cases
+		}}
+	props["C15"] = &propDef{level: "fault_enumeration", quickRuns: 160, thorRuns: 5000,
+		assumptions: append([]string{"crawl HQ is a simulated stateful service (URL table, seencheck set, websocket sink); a fault plan assigns to the k-th call of each kind one of {ok, 500, reset before apply, reset after apply, timeout}; duplicates at HQ are accepted only when some call was applied and then lost", "deliveries still pending when the crawl is stopped are outside the statement ('while the crawler keeps running')"}, e2eAssumptions...),
+		components:  map[string]string{"internal/pkg/source/hq (consumer, producer, finisher, seencheck, websocket), internal/pkg/source/lq": "real code with hook points", "github.com/internetarchive/gocrawlhq v1.2.31": "real, patched copy with a websocket dial seam; REST through a replaced http.DefaultTransport", "crawl HQ": "simulated service with per-call fault plan", "rest of the pipeline": "as for C01"},
+		rule:        "one case = one crawl with outlinks (max-hops 1-2) against either the simulated crawl HQ with a generated per-call fault sequence (5xx, reset before/after apply, timeout) over add/delete/get/seencheck calls and batch sizes 1-4, or the local sqlite queue; conservation of (text, via, hops) and of finish ids between what the pipeline emitted and what the queue applied is checked once the crawl is idle; distinct/non-trivial as for C01",
+		gen: func(t *scen.Tape, i int, tier string) *scen.Scenario {
+			o := scen.CrawlOpts{Prop: "C15", MinSeeds: 2, MaxSeeds: 6, Hops: true, Faults: true, NoBadSeeds: i%3 == 0}
+			o.HQ = i%2 == 0
+			sc := scen.GenCrawl(t, o)
+			if sc.Cfg.MaxHops == 0 {
+				sc.Cfg.MaxHops = 1 + i%2
+			}
+			return sc
+		}}
+	props["C19"] = &propDef{level: "exploration", quickRuns: 160, thorRuns: 5000,
+		assumptions: append([]string{"the bucket walk is a multi-request history against a stateful simulated S3-style service through queue -> seed -> fetch; completeness over documents is sampled by the generator (URLs planted by construction)", "object URLs are https: the simulated origin does not speak TLS, so objects themselves are queued but fail to download (max-retry 0); the property speaks of queueing"}, e2eAssumptions...),
+		components:  e2eComponents,
+		rule:        "one case = either 1-3 generated JSON / XML / RSS / sitemap / M3U8 documents (as seed or as an asset of a page) with URLs planted at several nesting depths, in attributes, text, CDATA, JSON-in-string and escaped forms, or one S3-style bucket (1-22 keys in prefix trees, zero-size keys, page size 1-7, marker or continuation-token API, with or without delimiter, four Server header variants) walked to the end; distinct/non-trivial as for C01",
+		gen:         func(t *scen.Tape, i int, tier string) *scen.Scenario { return scen.GenDocs(t, i%2 == 1) }}
+	props["C10"] = &propDef{level: "exploration", quickRuns: 240, thorRuns: 12000,
+		assumptions: append([]string{"the origin is the adversary: structure-aware samples per declared type (HTML, JSON, XML, sitemap, S3 listing, M3U8, PDF, plain text) damaged by generic mutations, plus hostile Location / Link / Content-Type / Content-Encoding headers and lying lengths; coverage-guided fuzzing of the extractors would dig deeper per CPU hour but is another technique", "a process crash (Go panic / fatal error) anywhere in the crawler, a goroutine still running inside input processing when the wall-clock limit expires, or damage spreading to well-behaved seeds are violations; a watchdog expiry without such a goroutine is reported as infrastructure failure, not as a violation"}, e2eAssumptions...),
+		components:  e2eComponents,
+		rule:        "one case = 1-4 hostile documents (as seed or as asset of a page) next to 1-2 well-behaved bystander seeds, crawled end to end under one seeded schedule; distinct/non-trivial as for C01",
+		gen:         func(t *scen.Tape, i int, tier string) *scen.Scenario { return scen.GenHostile(t) }}
 	_ = fmt.Sprint
 }
